@@ -442,17 +442,15 @@ Definition actions_table_ok (t : table) : res bool :=
   if negb (String.eqb h0 "SubCatchment") then Ok false else Ok (forallb row_ok (t_rows t)).
 
 (* planningunit.Id is uint64.  planningunit.Id(float64) truncates; outside [0, 2^64) the Go specification leaves the
-   result implementation-defined -- this is what the amd64 code generator produces (compare with 2^63, CVTTSD2SQ,
-   xor of the sign bit), checked against the running binary by the correspondence ("conv" cases). *)
+   result implementation-defined -- this is what the amd64 code generator of the Go release in use produces (everything
+   out of range, NaN and the infinities become 2^63; negatives above -2^63 wrap), checked against the running binary by the correspondence ("conv" cases). *)
 Definition two63 : Z := 9223372036854775808%Z.
 Definition two64z : Z := 18446744073709551616%Z.
 Definition pu_of_float (f : fval) : Z :=
   match f with
-  | NonFin NaN => 0%Z
-  | NonFin PInf => 0%Z
-  | NonFin NInf => two63
+  | NonFin _ => two63
   | Fin q => let z := Z.quot (Qnum q) (Z.pos (Qden q)) in
-             if (0 <=? z)%Z then (if (z <? two64z)%Z then z else 0%Z)
+             if (0 <=? z)%Z then (if (z <? two64z)%Z then z else two63)
              else if (- two63 <=? z)%Z then (two64z + z)%Z else two63
   end.
 Definition float_is_zero (f : fval) : bool := match f with Fin q => Qeq_bool q 0%Q | NonFin _ => false end.
